@@ -227,7 +227,7 @@ pub const STR_LITS: [&str; 5] = ["a", "b", "c", "a-b", ""];
 pub const NUM_LITS: [&str; 5] = ["0", "1", "2", "-1", "1.5"];
 /// literal chunks of template literal types: plain text first, then every regular-expression metacharacter
 /// (the emitted validator is a regex built from the chunks)
-pub const TPL_LITS: [&str; 14] = ["a", "-", "x.", "(b)", "a|b", "$", "[k]", "a+", "^", "\\d", "{2}", "?", "*", "/"];
+pub const TPL_LITS: [&str; 17] = ["a", "-", "x.", "(b)", "a|b", "$", "[k]", "a+", "^", "\\d", "{2}", "?", "*", "/", "`", "${", "a`${b}"];
 pub const DEF_NAMES: [&str; 4] = ["Alpha", "Beta", "Gamma", "Delta"];
 
 struct G<'c> {
@@ -779,6 +779,13 @@ fn edit_type_here(d: &D, s: &mut Src, cfg: &GenCfg, env_size: usize) -> D {
                 D::Object { props: p2, index: index.clone() }
             }
             3 => match index {
+                // optionality of the index value: T <-> T | undefined (Record<string, T> vs Partial<Record<string, T>>)
+                Some(ix) if s.chance(1, 2) => match &**ix {
+                    D::Union(ms) if ms.len() == 2 && ms.iter().any(|m| matches!(m, D::Undefined)) => {
+                        D::Object { props: props.clone(), index: Some(Box::new(ms.iter().find(|m| !matches!(m, D::Undefined)).unwrap().clone())) }
+                    }
+                    other => D::Object { props: props.clone(), index: Some(Box::new(D::Union(vec![other.clone(), D::Undefined]))) },
+                },
                 Some(_) => D::Object { props: props.clone(), index: None },
                 None => D::Object { props: props.clone(), index: Some(Box::new(gen_type(s, cfg, env_size, 0))) },
             },
